@@ -6,6 +6,7 @@ use crate::core::canon::{multiset_eq, show_rows, CRow};
 use crate::core::ctx::Ctx;
 use crate::core::rng::Rng;
 use crate::gen::ast::*;
+use crate::gen::ast::col as col_e;
 use crate::gen::build::*;
 use crate::gen::dual::*;
 
@@ -51,9 +52,49 @@ fn decorate_order(rng: &mut Rng, q: &mut Q) -> Compare {
 }
 
 fn gen_query(rng: &mut Rng, tables: &[Table]) -> (Q, Compare, &'static str) {
-    let shape = rng.below(10);
+    let shape = rng.below(12);
     let mut g = Gen { rng, tables, sub_budget: 2, allow_like: false };
     match shape {
+        10 => {
+            // set operation whose operands are aggregate blocks (same aggregate text on both sides is likely)
+            let f = *g.rng.pick(&["SUM", "COUNT", "MAX", "MIN", "AVG"]);
+            let col = *g.rng.pick(&["a", "b", "id"]);
+            let mut side = |g: &mut Gen| {
+                let t = &g.tables[g.rng.usize(g.tables.len())];
+                let sc = Scope::of_tables(&[(t, &t.name)]);
+                let mut q = Q { items: vec![(E::Agg(f, false, Some(Box::new(col_e("", col)))), String::new())], from: vec![From::Table(t.name.clone(), String::new())], ..Default::default() };
+                if g.rng.chance(1, 2) {
+                    q.where_ = Some(g.pred(&sc, 0));
+                }
+                if g.rng.chance(1, 3) {
+                    let k = sc.pick(g.rng, Ty::Int).unwrap();
+                    q.group_by.push(k);
+                }
+                q
+            };
+            g.sub_budget = 0;
+            let mut l = side(&mut g);
+            let r = side(&mut g);
+            let (op, all) = *g.rng.pick(&[("UNION", true), ("UNION", true), ("UNION", false), ("EXCEPT", true), ("INTERSECT", true)]);
+            l.setop = Some((op, all, Box::new(r)));
+            return (l, Compare::Multiset, "agg-setop");
+        }
+        11 => {
+            // aggregate over a derived table that itself aggregates (same function and column alias)
+            let f = *g.rng.pick(&["SUM", "COUNT", "MAX", "MIN"]);
+            let t = &g.tables[g.rng.usize(g.tables.len())];
+            let sc = Scope::of_tables(&[(t, &t.name)]);
+            let k = sc.pick(g.rng, Ty::Int).unwrap();
+            let v = *g.rng.pick(&["a", "b", "id"]);
+            let mut inner = Q { items: vec![(k.clone(), "g".into()), (E::Agg(f, false, Some(Box::new(col_e("", v)))), v.to_string())], from: vec![From::Table(t.name.clone(), String::new())], ..Default::default() };
+            inner.group_by.push(k);
+            g.sub_budget = 0;
+            if g.rng.chance(1, 3) {
+                inner.where_ = Some(g.pred(&sc, 0));
+            }
+            let outer = Q { items: vec![(E::Agg(f, false, Some(Box::new(col_e("d", v)))), String::new()), (E::Agg("COUNT", false, None), String::new())], from: vec![From::Derived(Box::new(inner), "d".into())], ..Default::default() };
+            return (outer, Compare::Multiset, "agg-over-derived-agg");
+        }
         0..=3 => {
             let mut q = g.plain_select(2);
             let how = decorate_order(g.rng, &mut q);
